@@ -1,6 +1,7 @@
 package main
 
 import (
+	"berty.tech/go-ipfs-log/entry"
 	"context"
 	"fmt"
 	"math/rand"
@@ -442,6 +443,67 @@ func oracleReplAtRest(r *Runner, snaps []*Snap, label string) *Violation {
 	return nil
 }
 
+// c19RefusedMix: a writer's new entry is announced to another replica in ONE message together with a
+// head by an identity without write access whose Lamport time lies far above the replica's entry count
+// (the refused head names the valid one as its parent). The refused head must leave no trace in the
+// replication status: the transition monitor keeps running and the rest oracle is applied afterwards.
+func c19RefusedMix(r *Runner, rng *rand.Rand) int {
+	A, err := NewAdv(r.E.W, "mallory")
+	if err != nil {
+		return 0
+	}
+	n := 0
+	for round := 0; round < 2; round++ {
+		ws := r.writers()
+		wi := ws[rng.Intn(len(ws))]
+		ri := (wi + 1 + rng.Intn(len(r.Peers)-1)) % len(r.Peers)
+		W, R := r.Peers[wi], r.Peers[ri]
+		if !W.Running() || !R.Running() || r.store(wi) == nil || r.store(ri) == nil {
+			continue
+		}
+		if err := r.Write(wi, r.GenOp(rng)); err != nil {
+			continue
+		}
+		r.settle()
+		r.E.W.DropAll() // the honest announcement of that write is lost: only the mixed message carries it
+		var list []*entry.Entry
+		var next []cid.Cid
+		maxT := 0
+		for _, h := range headsOf(r.store(wi)) {
+			he := h.Copy().(*entry.Entry)
+			list = append(list, he)
+			next = append(next, he.Hash)
+			if he.Clock.Time > maxT {
+				maxT = he.Clock.Time
+			}
+		}
+		bad, err := A.Forge(fNonWriter, r.DB.Addr, opPayload(r.Cfg.Type, 7000+round, "x"), next, nil, maxT+r.store(ri).OpLog().Len()+5+rng.Intn(20), nil)
+		if err != nil {
+			continue
+		}
+		if rng.Intn(2) == 0 {
+			list = append([]*entry.Entry{bad}, list...)
+		} else {
+			list = append(list, bad)
+		}
+		r.logf("refused-mix: p%d <- [%d heads incl. a non-writer's head at time %d]", ri, len(list), bad.Clock.Time)
+		if r.E.W.InjectPub(W, R, r.DB.Addr, HeadsMsg(r.DB.Addr, list...)) {
+			n++
+		}
+		if !r.settle() {
+			return n
+		}
+		r.Checkpoint(fmt.Sprintf("refused-mix-%d", round))
+		if r.failed != nil {
+			return n
+		}
+	}
+	if r.Converge() {
+		r.Checkpoint("converged-after-refused-mix")
+	}
+	return n
+}
+
 func c19Run(c fw.Case) fw.Verdict {
 	e := NewEnv()
 	defer e.Close()
@@ -508,6 +570,11 @@ func c19Run(c fw.Case) fw.Verdict {
 	if r.failed == nil && !r.watchdog && r.Converge() {
 		r.Checkpoint("converged")
 	}
+	refusedMix := 0
+	if r.failed == nil && !r.watchdog {
+		refusedMix = c19RefusedMix(r, rng)
+	}
+	r.V.Count("announcements_mixing_a_refused_head_with_a_new_valid_one", int64(refusedMix))
 	mon.mu.Lock()
 	tr := mon.transitions
 	mon.mu.Unlock()
